@@ -118,16 +118,28 @@ def split_tx_rows(rows):
         if r[0] == "V":
             tx = tx_from_tuple(r[1])
             tx["pre"] = r[7] if len(r) > 7 else "fresh"
-            V.append({"tx": tx, "mut": r[2], "v": r[3], "ok": r[4], "dup": r[5], "exact": r[6], "pre": tx["pre"]})
+            V.append({"tx": tx, "mut": r[2], "v": r[3], "ok": r[4], "dup": r[5], "exact": r[6], "pre": tx["pre"],
+                      "malex": r[8] if len(r) > 8 else False})
         elif r[0] == "X":
-            X.append({"tx": dict(tx_from_tuple(r[1]), pre="fresh"), "same": r[2], "nraw": r[3], "nsigned": r[4], "canon": r[5]})
+            X.append({"tx": dict(tx_from_tuple(r[1]), pre="fresh"), "same": r[2], "nraw": r[3], "nsigned": r[4], "canon": r[5],
+                      # the model's signer accounts (facts.accts) as realisable descriptors, and signed = accts in the model
+                      "accts": [{"form": a[0], "keys": a[1], "m": a[2]} for a in r[6]] if len(r) > 6 else [],
+                      "sacc": r[7] if len(r) > 7 else True})
         elif r[0] == "M":
             M.append({"tx": tx_from_tuple(r[1]), "name": r[2], "i": r[3], "j": r[4], "tx2": tx_from_tuple(r[5])})
     return V, X, M
 
 
-def run_sigtx(ctx, binary, ktypes, txs, muts, tag, sample=4):
-    res = go_rows(ctx, binary, "TestVerifSigTx", {"ktypes": ktypes, "txs": txs, "muts": muts, "sample": sample}, tag)
+MAL_KINDS = ("me", "mo", "mt", "ml", "mw")
+
+
+def has_malformed(tx):
+    """the abstract transaction holds a malformed signature blob (SigBase!Malformed)"""
+    return any(g["kind"] in MAL_KINDS for s in tx["sets"] for g in s["sigs"])
+
+
+def run_sigtx(ctx, binary, ktypes, txs, muts, tag, sample=4, malfull=False):
+    res = go_rows(ctx, binary, "TestVerifSigTx", {"ktypes": ktypes, "txs": txs, "muts": muts, "sample": sample, "malfull": malfull}, tag)
     if res is None:
         return None, None
     meta = res[0]
@@ -151,6 +163,8 @@ def enc_classes(tx, ktypes):
             if ktypes[vals[0] - 1] == "eth":
                 cls.add("single:ethereum-type-key")
         else:
+            if len(s["sigs"]) > s["m"]:
+                cls.add("multi:surplus-signatures")
             if vals != sorted(vals):
                 cls.add("multi:unsorted-keys")
             elif len(set(vals)) != len(vals):
